@@ -26,3 +26,17 @@ Definition fpl2_case_premise (c : fpl2_case) : bool :=
   let n := length (f2_xs c) in
   l2_all_trace_ok (f2_xs c) && pelt_trace_finite (l2_cost_F (f2_xs c)) (f2_pen c) (f2_m c) (f2_m c - 1) n
   && pelt_mag_ok (l2_cost_F (f2_xs c)) (f2_pen c) (f2_m c) (f2_m c - 1) n (f2_mag c) && l2_absmax_ok (f2_xs c) (f2_b c).
+
+(** The same for CAPA with the L2 saving on one column (Properties/C03_binary64_l2.v): from the DATA, [l2_saving_F] feeds the binary64 CAPA loop. *)
+From SK Require Import Model.Capa Check.FloatSavingCheck Proofs.CapaFloatL2.
+Record fcl2_case := { g2_xs : list float; g2_ac : float; g2_ap : float; g2_m : nat; g2_M : nat; g2_mag : float; g2_b : float;
+                      g2_scores : list float; g2_coll : list (nat * nat); g2_pts : list (nat * nat) }.
+Definition fcl2_case_ok (c : fcl2_case) : bool :=
+  let '(sc, co, pt) := gcapa F64 F64_tiny (l2ScF (g2_xs c)) (l2SpF (g2_xs c)) (g2_ac c) [0%float] (g2_ap c) [0%float] (g2_m c) (g2_M c) (g2_m c - 1) (length (g2_xs c)) in
+  flist_same sc (g2_scores c) && plist_same (sort_pairs co) (sort_pairs (g2_coll c)) && plist_same (sort_pairs pt) (sort_pairs (g2_pts c)).
+Definition fcl2_case_premise (c : fcl2_case) : bool :=
+  let n := length (g2_xs c) in
+  l2_saving_all_trace_ok (g2_xs c)
+  && capa_trace_finite F64_tiny (l2ScF (g2_xs c)) (l2SpF (g2_xs c)) (g2_ac c) (g2_ap c) [0%float] [0%float] (g2_m c) (g2_M c) (g2_m c - 1) n
+  && capa_mag_ok F64_tiny (l2ScF (g2_xs c)) (l2SpF (g2_xs c)) (g2_ac c) (g2_ap c) [0%float] [0%float] (g2_m c) (g2_M c) (g2_m c - 1) n (g2_mag c)
+  && l2_absmax_ok (g2_xs c) (g2_b c).
